@@ -464,4 +464,4 @@ def validate_path(ex_factory, harness, model, cfg, srcs, tag, tol=1e-9):
     if rc != 0:
         ok = False
         diffs.append("native exit %s: %s" % (rc, (se or "")[-300:]))
-    return ok, diffs, len(tr.rets)
+    return ok, diffs, len(tr.rets), getattr(ex2, "near_ties", 0)
